@@ -59,6 +59,16 @@ class Summary:
         self.fn = fn
 
 
+def _plain_data(v):
+    if v is None or isinstance(v, (bool, int, float, str)):
+        return True
+    if isinstance(v, (list, tuple)):
+        return all(_plain_data(x) for x in v)
+    if isinstance(v, dict):
+        return all(_plain_data(k) and _plain_data(x) for k, x in v.items())
+    return False
+
+
 def is_sym(v):
     return isinstance(v, z3.ExprRef)
 
@@ -173,6 +183,7 @@ class Interp:
         self.obligations = []                       # (kind, pc list, goal Bool, where)
         self.dropped = set()
         self.max_paths = max_paths
+        self.module_globals = {}
         self.npaths = 0
         self._ast_cache = {}
 
@@ -194,6 +205,9 @@ class Interp:
     # -- calling a function of the subset
     def call_function(self, fn, args, kwargs, st):
         node = fn if isinstance(fn, ast.FunctionDef) else self.fn_ast(fn)
+        g = getattr(getattr(getattr(fn, "fget", fn), "__func__", getattr(fn, "fget", fn)), "__globals__", None)
+        if g is not None and not self.module_globals:
+            self.module_globals = g
         env = dict(getattr(fn, "_closure_env", {}))
         params = node.args
         names = [a.arg for a in params.args]
@@ -408,6 +422,11 @@ class Interp:
             yield (st, _FnRef(node.id))
         elif node.id in ("True", "False", "None"):
             yield (st, {"True": True, "False": False, "None": None}[node.id])
+        elif node.id in self.module_globals and _plain_data(self.module_globals[node.id]):
+            yield (st, self.module_globals[node.id])          # module-level constant / table of the real module
+        elif node.id in self.module_globals and inspect.isfunction(self.module_globals[node.id]):
+            self.functions[node.id] = self.module_globals[node.id]
+            yield (st, _FnRef(node.id))
         else:
             raise OutOfSubset("unknown name %s" % node.id)
 
